@@ -23,15 +23,18 @@ def lst(items):
 
 
 def zlist(xs):
-    return lst([z(x) for x in xs])
+    xs = list(xs)
+    return lst([z(x) for x in xs]) if xs else '(@nil Z)'
 
 
 def qlist(xs):
-    return lst([q(x) for x in xs])
+    xs = list(xs)
+    return lst([q(x) for x in xs]) if xs else '(@nil Q)'
 
 
 def blist(xs):
-    return lst([b(x) for x in xs])
+    xs = list(xs)
+    return lst([b(x) for x in xs]) if xs else '(@nil bool)'
 
 
 def tup(items):
